@@ -232,6 +232,16 @@ class K:
     def nontrivial(self, cfg):
         return True
 
+    def decl(self, cfg):
+        """documented domain/target sub-domains: {"target": [...], "domain": [...]} with entries
+        ("same", i) = the i-th sub-domain of the other side, ("U", shape), ("RG", shape, distances or None, harmonic or None),
+        ("cls", class name, shape)"""
+        return None
+
+
+def same_all(d):
+    return [("same", i) for i in range(len(d))]
+
 
 def kron_all(blocks):
     M = np.ones((1, 1))
@@ -243,6 +253,10 @@ def kron_all(blocks):
 class Contraction(K):
     name = "ContractionOperator"
     modelled = True
+
+    def decl(self, c):
+        sp = spaces_list(c["spaces"], len(c["dom"]))
+        return {"target": [("same", i) for i in range(len(c["dom"])) if i not in sp]}
 
     def gen(self, rng):
         power = [0, 0, 1, 1, 2, -1][int(rng.integers(6))]
@@ -288,6 +302,10 @@ class Contraction(K):
 class DOFDist(K):
     name = "DOFDistributor"
     modelled = True
+
+    def decl(self, c):
+        k = c["space"]
+        return {"domain": [("same", i) if i != k else ("cls", "DOFSpace", [max(c["dofdex"]) + 1]) for i in range(len(c["tdom"]))]}
 
     def gen(self, rng):
         for _ in range(100):
@@ -336,6 +354,10 @@ class PowerDist(DOFDist):
     name = "PowerDistributor"
     modelled = True
 
+    def decl(self, c):
+        k = c["space"]
+        return {"domain": [("same", i) if i != k else ("cls", "PowerSpace", None) for i in range(len(c["tdom"]))]}
+
     def gen(self, rng):
         d = gen_dom(rng, 1, 3, maxsize=40)
         k = int(rng.integers(len(d)))
@@ -367,6 +389,11 @@ class PowerDist(DOFDist):
 class Padder(K):
     name = "FieldZeroPadder"
     modelled = True
+
+    def decl(self, c):
+        k = c["space"]
+        s = c["dom"][k]
+        return {"target": [("same", i) if i != k else ("RG", c["new_shape"], s["dist"], s["harm"]) for i in range(len(c["dom"]))]}
 
     def gen(self, rng):
         for _ in range(100):
@@ -420,6 +447,9 @@ class Mask(K):
     name = "MaskOperator"
     modelled = True
 
+    def decl(self, c):
+        return {"target": [("U", [sum(1 for f in c["flags"] if not f)])]}
+
     def gen(self, rng):
         d = gen_dom(rng, 1, 3)
         n = dsize(d)
@@ -449,6 +479,17 @@ class Mask(K):
 class Slice(K):
     name = "SliceOperator"
     modelled = True
+
+    def decl(self, c):
+        out = []
+        for i, (s, new) in enumerate(zip(c["dom"], self.newshapes(c))):
+            if new == list(s["shape"]):
+                out.append(("same", i))
+            elif s["k"] == "RG":
+                out.append(("RG", new, s["dist"] if c["preserve_dist"] else None, s["harm"]))
+            else:
+                out.append(("U", new))
+        return {"target": out}
 
     def gen(self, rng):
         d = gen_dom(rng, 1, 3, maxsize=36)
@@ -630,6 +671,9 @@ class ValueIns(K):
     name = "ValueInserter"
     modelled = True
 
+    def decl(self, c):
+        return {"domain": []}
+
     def gen(self, rng):
         d = gen_dom(rng, 1, 3)
         return {"tdom": d, "index": [int(rng.integers(a)) for a in flat_shape(d)]}
@@ -653,6 +697,9 @@ class ValueIns(K):
 class DTFI(K):
     name = "DomainTupleFieldInserter"
     modelled = True
+
+    def decl(self, c):
+        return {"domain": [("same", i) for i in range(len(c["tdom"])) if i != c["space"]]}
 
     def gen(self, rng):
         d = gen_dom(rng, 1, 3)
@@ -736,6 +783,9 @@ class Vdot(K):
     name = "VdotOperator"
     modelled = True
 
+    def decl(self, c):
+        return {"target": []}
+
     def gen(self, rng):
         d = gen_dom(rng, 1, 3, maxsize=12)
         cplx = bool(rng.integers(2))
@@ -759,6 +809,9 @@ class Vdot(K):
 class Transpose(K):
     name = "TransposeOperator"
     modelled = True
+
+    def decl(self, c):
+        return {"target": [("same", i) for i in c["indices"]]}
 
     def gen(self, rng):
         d = gen_dom(rng, 1, 4, maxsize=36)
@@ -797,6 +850,22 @@ class Squeeze(K):
     name = "SqueezeOperator"
     modelled = True
 
+    def decl(self, c):
+        out = []
+        for i, s in enumerate(c["dom"]):
+            sh = list(s["shape"])
+            if sh == [1]:
+                continue
+            if c["aggressive"] and 1 in sh:
+                keep = [j for j, a in enumerate(sh) if a != 1]
+                if s["k"] == "RG":
+                    out.append(("RG", [sh[j] for j in keep], [s["dist"][j] for j in keep], s["harm"]))
+                else:
+                    out.append(("U", [sh[j] for j in keep]))
+            else:
+                out.append(("same", i))
+        return {"target": out}
+
     def gen(self, rng):
         for _ in range(200):
             d = gen_dom(rng, 1, 4, maxsize=24, maxlen=3)
@@ -831,6 +900,11 @@ class GeoRemover(K):
     name = "GeometryRemover"
     modelled = True
 
+    def decl(self, c):
+        # "space: The index of the subdomain on which the operator should act. If None, it acts on all spaces."
+        return {"target": [("U", sp_shape(s)) if (c["space"] is None or c["space"] == i) else ("same", i)
+                           for i, s in enumerate(c["dom"])]}
+
     def gen(self, rng):
         d = gen_dom(rng, 1, 3)
         return {"dom": d, "space": None if rng.integers(2) else int(rng.integers(len(d)))}
@@ -842,7 +916,9 @@ class GeoRemover(K):
         return np.eye(dsize(c["dom"]))
 
     def coq(self, c):
-        return {"spec": "(X_reshape %s)" % cn(dsize(c["dom"])), "tgt": cshs(shapes_of(c["dom"]))}
+        sp = "None" if c["space"] is None else "(Some %s)" % cn(c["space"])
+        return {"spec": "(X_reshape %s)" % cn(dsize(c["dom"])), "tgt": cshs(shapes_of(c["dom"])),
+                "unstructured": "(geo_unstructured %s %s)" % (cn(len(c["dom"])), sp)}
 
     def nontrivial(self, c):
         return dsize(c["dom"]) > 1
@@ -880,6 +956,9 @@ class Reshaper(K):
 class Extract(K):
     name = "ExtractAtIndices"
     modelled = True
+
+    def decl(self, c):
+        return {"target": [("same", i) if i != c["space"] else ("U", [len(c["pix"])]) for i in range(len(c["dom"]))]}
 
     def gen(self, rng):
         d = gen_dom(rng, 1, 3, maxsize=24)
@@ -920,6 +999,9 @@ class Weight(K):
     modelled = True
     exported = False
 
+    def decl(self, c):
+        return {"target": same_all(c["dom"])}
+
     def gen(self, rng):
         d = gen_dom(rng, 1, 3, kinds=("RG",), maxsize=16)
         return {"dom": d, "spaces": pick_spaces(rng, len(d)), "power": int(rng.integers(-2, 3))}
@@ -956,6 +1038,9 @@ class Weight(K):
 class FFTShift(K):
     name = "FFTShiftOperator"
     modelled = True
+
+    def decl(self, c):
+        return {"target": same_all(c["dom"])}
 
     def gen(self, rng):
         d = gen_dom(rng, 1, 3, maxsize=30, maxlen=5)
@@ -1020,6 +1105,9 @@ class FFTShift(K):
 class MatProd(K):
     name = "MatrixProductOperator"
     modelled = True
+
+    def decl(self, c):
+        return {"target": same_all(c["dom"])}
 
     def gen(self, rng):
         d = gen_dom(rng, 1, 3, maxsize=16, maxlen=3)
@@ -1102,6 +1190,12 @@ class Regrid(K):
     # (n_old, n_new) with a dyadic ratio n_old/n_new, so that the float arithmetic of the constructor is exact
     PAIRS = [(2, 1), (2, 2), (3, 2), (3, 3), (4, 1), (4, 2), (4, 4), (5, 4), (6, 3), (6, 4), (7, 4), (8, 4), (8, 2), (5, 5), (6, 6), (3, 1)]
 
+    def decl(self, c):
+        k = c["space"]
+        s = c["dom"][k]
+        nd = [d * n / m for d, n, m in zip(s["dist"], s["shape"], c["new_shape"])]
+        return {"target": [("same", i) if i != k else ("RG", c["new_shape"], nd, None) for i in range(len(c["dom"]))]}
+
     def gen(self, rng):
         for _ in range(100):
             d = gen_dom(rng, 1, 3, maxsize=12, maxlen=3)
@@ -1146,6 +1240,9 @@ class Regrid(K):
 class Interp(K):
     name = "LinearInterpolator"
     modelled = True
+
+    def decl(self, c):
+        return {"target": [("U", [len(c["points"][0])])]}
 
     def gen(self, rng):
         nd = int(rng.integers(1, 3))
@@ -1199,6 +1296,9 @@ class Realizer(K):
     name = "Realizer"
     modelled = True
     real_linear = True
+
+    def decl(self, c):
+        return {"target": same_all(c["dom"])}
 
     def gen(self, rng):
         return {"dom": gen_dom(rng, 1, 3, maxsize=12)}
